@@ -44,4 +44,19 @@ CHECKS = {
         "assumptions": ["leaf data are unique (the tree indexes nodes by hash)", "reference root: refmodel.RMTRoot written from the LIP-0031 definition (DESIGN A.5)",
                         "right witnesses are only checked while no in-place Update happened (recorded append paths are stale afterwards by design)"],
     },
+    "C16": {
+        "profile": "seqsim", "pkg": "c16", "test": "TestC16", "level": "exploration",
+        "quick": {"workers": 8, "checks": 5000}, "thorough": {"workers": 14, "checks": 100000},
+        "timeout": {"quick": "15m", "thorough": "4h"},
+        "rule": "seeded histories (rapid) of <=8 operations over the real ABI handler + state machine + diff store + state SMT with the state DB on the simulated disk: "
+                "block = InitStateMachine, BeforeTransactionsExecute, 0-4 transactions whose command is a drawn program (sets/deletes/overwrites over 2 stores x 2 sub-stores from a 20-key universe, "
+                "revertible/unrevertible events, success or failure; 1/10 with a wrong nonce), AfterTransactionsExecute, optional dry-run commit, Commit (1/4 with a crash at a drawn file-system call, power loss or kill, torn write); "
+                "revert of the tip block; restart with the engine at the application's height or one block behind. State DB dump, returned events, state roots compared with a model map and a naive SMT root. "
+                "Non-trivial = a block with transactions, a revert, a restart or a crash; distinct = distinct histories",
+        "real": ["pkg/framework (ABIHandler, stateSMTBatch)", "pkg/statemachine (Executer, EventLogger, contexts)", "pkg/db/diffdb", "pkg/trie/smt", "pkg/db + pebble"],
+        "stub": ["application module: simmod (one command executing a program from the transaction params)", "file system: simfs", "ABI transport (handler called directly, Consensus field supplied by the harness)"],
+        "probes": ["revert", "restart_app_ahead", "crash_before_image", "crash_after_image"],
+        "assumptions": ["reference root: refmodel.SMTRoot over {prefix||H(key) -> H(value)} (DESIGN A.4)", "an invalid transaction ends the block (the engine drops the context)",
+                        "hook effects (nonce increment in BeforeCommandExecute) are outside the command's snapshot, as in the real auth module"],
+    },
 }
